@@ -1,5 +1,5 @@
 //! C19: dynafed parameter roots survive compaction and match the commitment layout.
-use crate::{c01, util::*, Case, Out};
+use crate::{c01, txgen::{ref_bytes, ref_params_vec, ref_stack}, util::*, Case, Out};
 use elements::dynafed::Params;
 use elements::encode::{deserialize, serialize};
 use elements::hashes::{sha256d, Hash};
@@ -28,12 +28,21 @@ pub fn eval(case: &str) -> Out {
     if c.is_null() && rc != [0u8; 32] { fail = Some("null-root|null parameters do not have the all-zero root".to_string()); }
     // the layout, recomputed from the fields
     if let Some(f) = c.full() {
-        let compact_root = fmr(&[sh(&f.signblockscript), sh(&f.signblock_witness_limit)]);
-        let extra = fmr(&[sh(&f.fedpeg_program), sh(&f.fedpegscript), sh(&f.extension_space)]);
+        // leaves hashed from the reference encoding (txgen::ref_*: own compact-size writer), not from the crate's encoder
+        let shb = |b: &[u8]| { let mut o = Vec::new(); ref_bytes(&mut o, b); sha256d::Hash::hash(&o).to_byte_array() };
+        let ext = { let mut o = Vec::new(); ref_stack(&mut o, &f.extension_space); sha256d::Hash::hash(&o).to_byte_array() };
+        let compact_root = fmr(&[shb(f.signblockscript.as_bytes()), sha256d::Hash::hash(&f.signblock_witness_limit.to_le_bytes()).to_byte_array()]);
+        let extra = fmr(&[shb(f.fedpeg_program.as_bytes()), shb(&f.fedpegscript), ext]);
+        if sh(&f.signblockscript) != shb(f.signblockscript.as_bytes()) || sh(&f.fedpegscript) != shb(&f.fedpegscript) || sh(&f.extension_space) != ext { fail = Some("leaf-encoding|a committed field's consensus encoding (crate) differs from the reference encoding".to_string()); }
         if rc != fmr(&[compact_root, extra]) { fail = Some("layout|root is not the two-level commitment to (signblockscript, limit) and (fedpeg program, fedpeg script, extension space)".to_string()); }
         if let Some(Params::Compact { signblockscript, signblock_witness_limit, elided_root }) = c.clone().into_compact() {
             if signblockscript != f.signblockscript || signblock_witness_limit != f.signblock_witness_limit || elided_root.to_byte_array() != extra { fail = Some("compact-fields|compaction changed the signblock fields or the elided root".to_string()); }
         }
+    }
+    if let Params::Compact { signblockscript, signblock_witness_limit, elided_root } = &c {
+        let shb = |b: &[u8]| { let mut o = Vec::new(); ref_bytes(&mut o, b); sha256d::Hash::hash(&o).to_byte_array() };
+        let compact_root = fmr(&[shb(signblockscript.as_bytes()), sha256d::Hash::hash(&signblock_witness_limit.to_le_bytes()).to_byte_array()]);
+        if rc != fmr(&[compact_root, elided_root.to_byte_array()]) { fail = Some("layout-compact|root of compact parameters is not the commitment to (signblockscript, limit) and the elided root".to_string()); }
     }
     if hr != Some(fmr(&[rc, rp])) { fail = Some("header-root|header dynafed root is not the fast merkle root of the two parameter roots".to_string()); }
     let show = |o: Option<[u8; 32]>| o.map(|x| hex(&x)).unwrap_or_else(|| "-".into());
@@ -48,7 +57,7 @@ pub fn gen(rng: &mut ChaCha20Rng, n: usize, _thorough: bool) -> Vec<Case> {
         let p = c01::rparams(rng, &mut tags);
         let nt = !(c.is_null() && p.is_null());
         let _ = rng.gen::<u8>();
-        out.push(Case { text: format!("C19 {} {} {}", c01::caps(), hex(&serialize(&c)), hex(&serialize(&p))), tags, nontrivial: nt });
+        out.push(Case { text: format!("C19 {} {} {}", c01::caps(), hex(&ref_params_vec(&c)), hex(&ref_params_vec(&p))), tags, nontrivial: nt });
     }
     out
 }
